@@ -207,6 +207,12 @@ def facts(src, strip_comments, fn_body):
     else:
         out["scriptDatabaseCmdsGetDb"] = None
     out["scriptDatabaseCmdsGetDb_why"] = "`Command::Database(..) => self.execute_database(..)` not found in UnifiedCommandExecutor::execute"
+    # ---- are the clients blocked on a key served when a list appears under it without LPUSH/RPUSH (script, RENAME)?
+    if body is not None:
+        out["sweepAfterScript"] = bool(re.search(r"blocked_keys\s*\(", body) and re.search(r"serve_key\s*\(", body))
+    else:
+        out["sweepAfterScript"] = None
+    out["sweepAfterScript_why"] = "process_normal_command not found"
     # ---- counts
     eng = strip_comments(src("storage/engine.rs"))
     m = re.search(r"pub fn new\(\)\s*->\s*Arc<Self>\s*\{\s*Self::with_config\(\s*(\d+)\s*,", eng)
@@ -240,7 +246,8 @@ def generate(src, strip_comments, fn_body, HEADER):
         L.append("def preDispatch : List String := [" + ", ".join('"%s"' % n for n in f["preDispatch"]) + "]")
     L.append("")
     for key, doc in (("execSelectEffective", "`handle_exec` lets a queued SELECT change the connection's database (false: queued commands are re-dispatched with connection id 0)"),
-                     ("scriptDatabaseCmdsGetDb", "`UnifiedCommandExecutor::execute` passes `db` to `execute_database` (FLUSHDB/DBSIZE/KEYS from scripts)")):
+                     ("scriptDatabaseCmdsGetDb", "`UnifiedCommandExecutor::execute` passes `db` to `execute_database` (FLUSHDB/DBSIZE/KEYS from scripts)"),
+                     ("sweepAfterScript", "after EVAL/EVALSHA/RENAME/RENAMENX `process_normal_command` serves every key of the database that has a waiter and an element (`blocked_keys` + `serve_key`)")):
         L.append("/-- %s -/" % doc)
         v = f[key]
         L.append("def %s : Bool := %s" % (key, failed(key) if v is None else ("true" if v else "false")))
